@@ -152,8 +152,10 @@ class Closure:
         self.fdef, self.env, self.cls = fdef, env, cls
 
 
-class Ret(Exception):
-    pass
+class Retv:
+    """a returned value together with the attribute state of `self` at the return statement"""
+    def __init__(self, v, st):
+        self.v, self.st = v, st
 
 
 def num(v):
@@ -651,7 +653,33 @@ class Evaluator:
 
     # ---------------------------------------------------------------- statements
     def block(self, stmts, env):
-        """executes statements; returns the returned value or None (falls through, env updated in place)"""
+        """executes statements; returns the returned value or None (falls through); `env` is updated in place — also with the
+        attribute stores made on the path(s) that returned (the state of `self` at the return statements, merged over the paths)"""
+        r = self._block(stmts, env)
+        if r is None:
+            return None
+        for k, v in r.st.items():
+            env[k] = v
+        for k in [k for k in env if k.startswith('self.') and k != 'self.__class__' and k not in r.st]:
+            del env[k]
+        return r.v
+
+    def _snap(self, env):
+        return {k: v for k, v in env.items() if k.startswith('self.') and k != 'self.__class__'}
+
+    def _merge_state(self, c, s1, s2):
+        out = {}
+        for k in set(s1) | set(s2):
+            a, b = s1.get(k), s2.get(k)
+            if a is None or b is None:
+                continue
+            if a is b or isinstance(a, (Closure, str, Opaque)) or isinstance(b, (Closure, str, Opaque)):
+                out[k] = a
+            else:
+                out[k] = self.merge(c, a, b)
+        return out
+
+    def _block(self, stmts, env):
         for i, s in enumerate(stmts):
             if isinstance(s, ast.Expr):
                 if isinstance(s.value, ast.Constant) and isinstance(s.value.value, str):
@@ -686,7 +714,7 @@ class Evaluator:
             if isinstance(s, ast.Return):
                 if s.value is None:
                     raise Unsupported('bare return')
-                return self.ev(s.value, env)
+                return Retv(self.ev(s.value, env), self._snap(env))
             if isinstance(s, (ast.Assign, ast.AnnAssign)):
                 if isinstance(s, ast.AnnAssign):
                     if s.value is None:
@@ -722,14 +750,14 @@ class Evaluator:
             if isinstance(s, ast.If):
                 c = self.cond(s.test, env)
                 if c.kind == 'static':
-                    r = self.block(s.body if c.s else s.orelse, env)
+                    r = self._block(s.body if c.s else s.orelse, env)
                     if r is not None:
                         return r
                     continue
                 e1, e2 = dict(env), dict(env)
                 rest = stmts[i + 1:]
-                r1 = self.block(s.body, e1)
-                r2 = self.block(s.orelse, e2)
+                r1 = self._block(s.body, e1)
+                r2 = self._block(s.orelse, e2)
                 if r1 is None and r2 is None:
                     for k in set(e1) | set(e2):
                         a, b = e1.get(k), e2.get(k)
@@ -743,12 +771,12 @@ class Evaluator:
                         env[k] = self.merge(c, a, b)
                     continue
                 if r1 is None:
-                    r1 = self.block(rest, e1)
+                    r1 = self._block(rest, e1)
                 if r2 is None:
-                    r2 = self.block(rest, e2)
+                    r2 = self._block(rest, e2)
                 if r1 is None or r2 is None:
                     raise Unsupported('a path falls off the end of the function')
-                return self.merge(c, r1, r2)
+                return Retv(self.merge(c, r1.v, r2.v), self._merge_state(c, r1.st, r2.st))
             if isinstance(s, (ast.Pass, ast.Assert)):
                 continue
             if isinstance(s, ast.While):
@@ -759,7 +787,7 @@ class Evaluator:
                 if not all(isinstance(h.type, ast.Name) and h.type.id == 'ZeroDivisionError' for h in s.handlers) or s.orelse or s.finalbody:
                     raise Unsupported('try statement other than `except ZeroDivisionError`')
                 self.notes.append('try/except ZeroDivisionError: body translated with field division')
-                r = self.block(s.body, env)
+                r = self._block(s.body, env)
                 if r is not None:
                     return r
                 continue
